@@ -10,6 +10,8 @@ import MagpyVerif.Lemmas.Level2Shape
 import MagpyVerif.Lemmas.TrimeshInside
 import MagpyVerif.Lemmas.OctaCarrier
 import MagpyVerif.Lemmas.Celv
+import MagpyVerif.Lemmas.CylinderBatch
+import MagpyVerif.Lemmas.CelIterV
 import MagpyVerif.Model.Level2State
 namespace MagpyVerif.C06
 open MagpyVerif MagpyVerif.Level2
@@ -610,6 +612,204 @@ theorem celv_ne_cel0_in_band (fuel : Nat) (k : ℝ) (hk : 0 < k) (hk1 : k ≠ 1)
 example : Real.pi / (1 + (1 + 1 / 2000000 : ℝ)) ≠ 2 * Real.pi / (1 + √(1 + 1 / 2000000 : ℝ)) ^ 2 :=
   (celv_ne_cel0_in_band 0 (1 + 1 / 2000000) (by norm_num) (by norm_num) (by
     rw [abs_of_nonpos (by norm_num)]; norm_num)).2.2
+
+end MagpyVerif.C06
+
+/-! ### `BHJM_magnet_cylinder` on a batch of rows (Model/CylinderBatch.lean)
+
+The kernels call `cel` on whole columns: the axial kernel on the rows of `mask_pol_ax` (four calls), the diametral kernel on the rows
+of `mask_pol_tv` with `r/r0 >= 0.05` (two calls).  `cel` switches at 10 entries between `cel0` per entry and `celv`.  So the routine that
+computes a row's elliptic integrals depends on how many OTHER rows of the call have an axial / a transversal polarization component and
+are not near the axis — on nothing else of the other rows.  Tied to the code by the `cylbatch` rows of the kern stream. -/
+namespace MagpyVerif.C06
+open MagpyVerif MagpyVerif.Kern
+
+/-- **exact, every carrier (IEEE double included), every batch, every fuel**: the batch result is, row by row, the one-row function
+`bhjmCylinderRowWith` in which a `cel` call is `celPath fuel n` — `cel0` for `n < 10`, the entry's own body-first loop `celv1` otherwise —
+with `n = cylTvGenCount rows` for the diametral and `n = cylAxCount rows` for the axial kernel.  The call returns iff every row's own
+computation returns.  This is the precise sense in which a row depends on the batch: through the two counts only -/
+theorem cylinder_batch_rowwise {α : Type} [Num α] (fuel : Nat) (f : Field) (rows : List (CylRow α)) :
+    bhjmCylinderBatch (celDispatch fuel) fuel f rows =
+      seqOpt (rows.map (bhjmCylinderRowWith (celPath fuel (cylTvGenCount rows)) (celPath fuel (cylAxCount rows)) fuel f)) :=
+  bhjmCylinderBatch_rowwise (celDispatch fuel) _ _ fuel f rows
+    (fun b hb => by rw [celDispatch_rowwise, hb]) (fun b hb => by rw [celDispatch_rowwise, hb])
+
+/-- every carrier: as long as fewer than 10 rows reach each kernel's `cel` calls, row `i` of the batch is what the call with row `i`
+alone computes (`bhjmCylinder`, Model/Cylinder.lean) -/
+theorem cylinder_batch_rowwise_below_threshold {α : Type} [Num α] (fuel : Nat) (f : Field) (rows : List (CylRow α))
+    (htv : cylTvGenCount rows < 10) (hax : cylAxCount rows < 10) :
+    bhjmCylinderBatch (celDispatch fuel) fuel f rows =
+      seqOpt (rows.map fun row => bhjmCylinder fuel f (row.d, row.h) row.pol row.x) := by
+  rw [cylinder_batch_rowwise]
+  apply seqOpt_congr
+  intro row _
+  rw [bhjmCylinder_eq_with]
+  simp [celPath, htv, hax]
+
+/-- in particular (every carrier, IEEE double included): a call with fewer than 10 rows is row-wise without any exception -/
+theorem cylinder_batch_rowwise_small {α : Type} [Num α] (fuel : Nat) (f : Field) (rows : List (CylRow α))
+    (hlen : rows.length < 10) :
+    bhjmCylinderBatch (celDispatch fuel) fuel f rows =
+      seqOpt (rows.map fun row => bhjmCylinder fuel f (row.d, row.h) row.pol row.x) :=
+  cylinder_batch_rowwise_below_threshold fuel f rows (lt_of_le_of_lt (cylTvGenCount_le rows) hlen)
+    (lt_of_le_of_lt (cylAxCount_le rows) hlen)
+
+example : bhjmCylinderBatch (celDispatch 7) 7 .H (List.replicate 9 exCylRow) =
+    seqOpt ((List.replicate 9 exCylRow).map fun row => bhjmCylinder 7 .H (row.d, row.h) row.pol row.x) :=
+  cylinder_batch_rowwise_small _ _ _ (by simp)
+
+/- FULL (false of the code): for every batch, row `i` of `BHJM_magnet_cylinder(rows)` equals `BHJM_magnet_cylinder([rows[i]])`.
+   False when a modulus of one of row `i`'s `cel` entries lies in the band `0 < |1 − |kc|| ≤ 1e-6` and 10 or more rows share the call
+   (`celv_ne_cel0_in_band`, `cel_band_exact`; observers within ~5e-7 radii of the axis for the axial kernel, farther than ~1400 radii
+   for the diametral kernel; measured on the real code ≤ 1.8e-12 relative, `cylbatch` rows), and not stated for `kc = 0` (`cel0` raises,
+   `celv` does not return: Props/C15). -/
+/-- exact arithmetic, sufficient fuel: if no modulus of the `cel` entries the rows contribute is 0 or lies in the band
+`|1 − |kc|| ≤ 1e-6`, row `i` of the batch result is the one-row model of row `i`, whatever the size and composition of the batch -/
+theorem cylinder_batch_rowwise_off_band (fuel : Nat) (f : Field) (rows : List (CylRow ℝ))
+    (h : ∀ row ∈ rows, ∀ a ∈ cylRowTvArgs row ++ cylRowAxArgs row,
+      a.kc ≠ 0 ∧ 1 / 1000000 < |1 - (|a.kc|)| ∧ celFuel1 |a.kc| (1 / 1000000) + 1 ≤ fuel) :
+    bhjmCylinderBatch (celDispatch fuel) fuel f rows =
+      seqOpt (rows.map fun row => bhjmCylinder fuel f (row.d, row.h) row.pol row.x) := by
+  rw [cylinder_batch_rowwise]
+  apply seqOpt_congr
+  intro row hrow
+  rw [bhjmCylinder_eq_with]
+  apply bhjmCylinderRowWith_congr
+  · intro a ha
+    obtain ⟨h1, h2, h3⟩ := h row hrow a (List.mem_append_left _ ha)
+    exact celPath_eq_cel0Arg_off_band a h1 h2 fuel h3 _
+  · intro a ha
+    obtain ⟨h1, h2, h3⟩ := h row hrow a (List.mem_append_right _ ha)
+    exact celPath_eq_cel0Arg_off_band a h1 h2 fuel h3 _
+
+-- non-vacuity: twelve rows (so `cel` takes its `celv` path) whose moduli √(5/17) are off the band
+example : bhjmCylinderBatch (celDispatch (celFuel1 (√(5 / 17)) (1 / 1000000) + 1)) (celFuel1 (√(5 / 17)) (1 / 1000000) + 1) .B
+      (List.replicate 12 exCylRow) =
+    seqOpt ((List.replicate 12 exCylRow).map fun row =>
+      bhjmCylinder (celFuel1 (√(5 / 17)) (1 / 1000000) + 1) .B (row.d, row.h) row.pol row.x) :=
+  cylinder_batch_rowwise_off_band _ _ _ (exCylRow_off_band _ le_rfl 12)
+
+/-- every carrier: permuting the rows of the call permutes the (row, value) pairs — the two sub-batch counts are invariant -/
+theorem cylinder_batch_perm {α : Type} [Num α] (fuel : Nat) (f : Field) {l1 l2 : List (CylRow α)} (hp : l1.Perm l2)
+    {v1 : List (V3 α)} (h : bhjmCylinderBatch (celDispatch fuel) fuel f l1 = some v1) :
+    ∃ v2, bhjmCylinderBatch (celDispatch fuel) fuel f l2 = some v2 ∧ (l1.zip v1).Perm (l2.zip v2) := by
+  rw [cylinder_batch_rowwise] at h
+  rw [cylinder_batch_rowwise, ← cylTvGenCount_perm hp, ← cylAxCount_perm hp]
+  exact seqOpt_map_perm _ hp h
+
+-- non-vacuity: the call on twelve rows returns (fuel: the rows' `cel0` bound and the one-row model's bound)
+example : ∃ v1 v2, bhjmCylinderBatch (celDispatch (max (celFuel1 (√(5 / 17)) (1 / 1000000) + 1) (cylFuelX 2 2 ⟨3, 0, 0⟩)))
+      (max (celFuel1 (√(5 / 17)) (1 / 1000000) + 1) (cylFuelX 2 2 ⟨3, 0, 0⟩)) .B (List.replicate 12 exCylRow) = some v1 ∧
+    bhjmCylinderBatch (celDispatch (max (celFuel1 (√(5 / 17)) (1 / 1000000) + 1) (cylFuelX 2 2 ⟨3, 0, 0⟩)))
+      (max (celFuel1 (√(5 / 17)) (1 / 1000000) + 1) (cylFuelX 2 2 ⟨3, 0, 0⟩)) .B (List.replicate 12 exCylRow).reverse = some v2 ∧
+    ((List.replicate 12 exCylRow).zip v1).Perm ((List.replicate 12 exCylRow).reverse.zip v2) := by
+  have hs : (bhjmCylinderBatch (celDispatch (max (celFuel1 (√(5 / 17)) (1 / 1000000) + 1) (cylFuelX 2 2 ⟨3, 0, 0⟩)))
+      (max (celFuel1 (√(5 / 17)) (1 / 1000000) + 1) (cylFuelX 2 2 ⟨3, 0, 0⟩)) .B (List.replicate 12 exCylRow)).isSome := by
+    rw [cylinder_batch_rowwise_off_band _ _ _ (exCylRow_off_band _ (le_max_left _ _) 12), seqOpt_isSome_iff]
+    intro o ho
+    obtain ⟨row, hrow, rfl⟩ := List.mem_map.mp ho
+    rw [List.eq_of_mem_replicate hrow]
+    exact bhjmCylinder_isSome _ _ 2 2 _ _ (by norm_num) (by norm_num) (le_max_right _ _)
+  obtain ⟨v1, hv1⟩ := Option.isSome_iff_exists.mp hs
+  obtain ⟨v2, hv2, hperm⟩ := cylinder_batch_perm _ _ (List.reverse_perm _).symm hv1
+  exact ⟨v1, v2, hv1, hv2, hperm⟩
+
+/-- a row's value in two calls that form sub-batches on the same side of the threshold is the same (every carrier): e.g. the same
+observer in a call of 12 and in a call of 40 rows reaching the kernel -/
+theorem cylinder_row_depends_on_counts_only {α : Type} [Num α] (fuel : Nat) (f : Field) (rows rows' : List (CylRow α))
+    (htv : (cylTvGenCount rows < 10) = (cylTvGenCount rows' < 10)) (hax : (cylAxCount rows < 10) = (cylAxCount rows' < 10))
+    (row : CylRow α) :
+    bhjmCylinderRowWith (celPath fuel (cylTvGenCount rows)) (celPath fuel (cylAxCount rows)) fuel f row =
+      bhjmCylinderRowWith (celPath fuel (cylTvGenCount rows')) (celPath fuel (cylAxCount rows')) fuel f row := by
+  have e1 : (celPath fuel (cylTvGenCount rows) : CelArg α → Option α) = celPath fuel (cylTvGenCount rows') := by
+    unfold celPath; simp only [htv]
+  have e2 : (celPath fuel (cylAxCount rows) : CelArg α → Option α) = celPath fuel (cylAxCount rows') := by
+    unfold celPath; simp only [hax]
+  rw [e1, e2]
+
+/-- **what differs in the band** (exact arithmetic, any `p`, `c`, `s`): for an entry with `kc ≠ 0`, `|1 − |kc|| ≤ 1e-6` and any fuel
+≥ 1, `cel0` returns the return expression `celvOut` at the state after the prologue, `celv` the same expression after one pass of the
+loop body — these two numbers are what a row's `cel` value is below / from 10 rows -/
+theorem cel_band_exact (fuel : Nat) (x : CelArg ℝ) (hkc : x.kc ≠ 0) (hband : |1 - (|x.kc|)| ≤ 1 / 1000000) :
+    celPath (fuel + 1) 9 x = some (celvOut (celvInit x)) ∧
+    celPath (fuel + 1) 10 x = some (celvOut (celvStep (celvInit x))) := by
+  have := band_exact fuel x hkc hband
+  simpa [celPath] using this
+
+/-- for the complete integral of the first kind (`p = c = s = 1`; scipy-free `ellipk`) the two band values `π/(1+k)` (`cel0`) and
+`2π/(1+√k)²` (`celv`) differ by exactly `(1−k)²/(1+√k)⁴` of the first, hence by at most `(1−k)²/15 ≤ 6.7e-14` of it: the observed
+1e-13-level differences between a row alone and the row in a batch are this quantity -/
+theorem cel_band_difference_le (k : ℝ) (hk : 0 < k) (hband : |1 - k| ≤ 1 / 1000000) :
+    |Real.pi / (1 + k) - 2 * Real.pi / (1 + √k) ^ 2| ≤ (1 - k) ^ 2 / 15 * (Real.pi / (1 + k)) ∧
+    (1 - k) ^ 2 / 15 * (Real.pi / (1 + k)) ≤ 1 / 15000000000000 * (Real.pi / (1 + k)) :=
+  band_difference_le k hk hband
+
+example : |Real.pi / (1 + (1 + 1 / 2000000 : ℝ)) - 2 * Real.pi / (1 + √(1 + 1 / 2000000 : ℝ)) ^ 2| ≤
+    1 / 15000000000000 * (Real.pi / (1 + (1 + 1 / 2000000 : ℝ))) := by
+  have := cel_band_difference_le (1 + 1 / 2000000) (by norm_num) (by rw [abs_of_nonpos (by norm_num)]; norm_num)
+  exact le_trans this.1 this.2
+
+end MagpyVerif.C06
+
+/-! ### `cel_iterv` (special_cel.py, the Circle kernel): every entry is stepped until the slowest one has met its test
+
+`cel_iter` returns `cel_iterv(…)` for every batch size (below 15 entries the scalar loop `cel_iter0` runs first, its result is
+discarded).  `cel_iterv` has no mask: `while np.any(|g − qc| >= qc·1e-8): <body on all entries>`. -/
+namespace MagpyVerif.C06
+open MagpyVerif MagpyVerif.Kern
+
+/- FULL (false of the code): entry `i` of `cel_iterv(batch)` equals `cel_iter0(batch[i])`.  False whenever another entry of the batch
+   needs more passes: the entry is stepped on, and away from the fixed point a pass changes the return expression (by an amount that
+   contracts quadratically with the gap `em − 2√kk`; measured on Circle.getB ≤ 6e-16 relative — no bound is proved). -/
+/-- exact arithmetic, rows of the shape the loop maintains (`0 < g`, `0 < qc`, `em = g + qc`, `kk = qc·g` — the rows the Circle
+kernel builds, `circle_rows_have_shape`): if the batch loop returns `vs`, there is ONE pass count `N` such that entry `i` of `vs` is
+the return expression of row `i` after `N` passes; row `i` alone would have stopped after its own `Nᵢ ≤ N` passes (an entry that has
+met the exit test keeps meeting it); and `N` is attained: it is the pass count of the slowest entry, which gets exactly its own value -/
+theorem cel_iterv_passes_partial (fuel : Nat) (rows : List (CelRow ℝ)) (hshape : ∀ s ∈ rows, CelShape s) (vs : List ℝ)
+    (h : celIterV fuel rows = some vs) :
+    ∃ N, N < fuel ∧ vs = rows.map (fun s => celRowOut (celRowStep^[N] s)) ∧
+      (∀ s ∈ rows, ∃ Ns, Ns ≤ N ∧ celIterRow fuel s = some (celRowOut (celRowStep^[Ns] s))) ∧
+      (rows ≠ [] → ∃ s ∈ rows, celIterRow fuel s = some (celRowOut (celRowStep^[N] s))) :=
+  celIterV_passes fuel rows hshape vs h
+
+/-- the rows `BHJM_circle` passes to `cel_iter` (`qc = kk = q`, `p = em = 1 + q`, `g = 1`, `q > 0`) have that shape -/
+theorem circle_rows_have_shape (q cc ss : ℝ) (hq : 0 < q) : CelShape ⟨q, 1 + q, 1, cc, ss, 1 + q, q⟩ :=
+  ⟨one_pos, hq, rfl, (mul_one q).symm⟩
+
+-- non-vacuity: a two-row batch of Circle rows returns (Props/C15 `celIterV_terminates`), so the theorem applies
+example : ∃ vs N, celIterV (celFuelV [⟨2, 3, 1, 1, 1, 3, 2⟩, ⟨5, 6, 1, 0, 1, 6, 5⟩])
+      [(⟨2, 3, 1, 1, 1, 3, 2⟩ : CelRow ℝ), ⟨5, 6, 1, 0, 1, 6, 5⟩] = some vs ∧
+    vs = [celRowOut (celRowStep^[N] ⟨2, 3, 1, 1, 1, 3, 2⟩), celRowOut (celRowStep^[N] ⟨5, 6, 1, 0, 1, 6, 5⟩)] := by
+  have hs := celIterV_isSome_celFuelV [(⟨2, 3, 1, 1, 1, 3, 2⟩ : CelRow ℝ), ⟨5, 6, 1, 0, 1, 6, 5⟩] (by
+    intro s hs
+    simp only [List.mem_cons, List.not_mem_nil, or_false] at hs
+    rcases hs with rfl | rfl <;> norm_num) _ le_rfl
+  obtain ⟨vs, hvs⟩ := Option.isSome_iff_exists.mp hs
+  obtain ⟨N, _, hv, _⟩ := cel_iterv_passes_partial _ _ (by
+    intro s hs
+    simp only [List.mem_cons, List.not_mem_nil, or_false] at hs
+    rcases hs with rfl | rfl
+    · have := circle_rows_have_shape 2 1 1 (by norm_num); norm_num at this; exact this
+    · have := circle_rows_have_shape 5 0 1 (by norm_num); norm_num at this; exact this) vs hvs
+  exact ⟨vs, N, hvs, by simpa using hv⟩
+
+/-- any carrier: the batch value is the return expression after the same number `N` of passes for all entries, `N` the first pass
+count at which every entry meets the exit test -/
+theorem cel_iterv_same_pass_count {α : Type} [Num α] (fuel : Nat) (rows : List (CelRow α)) (vs : List α)
+    (h : celIterV fuel rows = some vs) :
+    ∃ N, N < fuel ∧ (∀ j, j < N → ∃ s ∈ rows, celRowCont (celRowStep^[j] s) = true) ∧
+      (∀ s ∈ rows, celRowCont (celRowStep^[N] s) = false) ∧
+      vs = rows.map fun s => celRowOut (celRowStep^[N] s) :=
+  celIterV_some_spec fuel rows vs h
+
+/-- at the fixed point of the iteration (`2√kk = em`) a pass does not change the return expression: the extra passes an entry gets
+are harmless in the limit; how much they change the value before the limit is not bounded here -/
+theorem cel_iterv_extra_pass_at_fixed_point (s : CelRow ℝ) (hfix : 2 * √s.kk = s.em) (hp : s.p ≠ 0) (hemp : s.em + s.p ≠ 0) :
+    celRowOut (celRowStep s) = celRowOut s :=
+  celRowOut_step_fixed s hfix hp hemp
+
+example : celRowOut (celRowStep (⟨1, 2, 1, 3, 5, 2, 1⟩ : CelRow ℝ)) = celRowOut ⟨1, 2, 1, 3, 5, 2, 1⟩ :=
+  cel_iterv_extra_pass_at_fixed_point _ (by norm_num) (by norm_num) (by norm_num)
 
 end MagpyVerif.C06
 
